@@ -434,7 +434,8 @@ def mech_cases(ctx):
     eps_grid = [0, 0.0, 0.5, 1.0, 1.5, INF, NAN, -1.0, "1", 2 ** -52, 2 ** -51]
     delta_grid = [0, 0.0, 0.1, 0.5, 0.6, 1.0, 1.1, NAN, "1", None, -5e-324]
     bounds_grid = [(0, 1), (1, 0), (1, 1), (NAN, 1), (0, NAN), (-INF, INF), (INF, -INF), (0.5, 1.5), (0.3, 1), ("0", 1),
-                   (None, 1), (0.0, 1.0), (1.0, 0.0), (0.5000000001, 3), (2, 1.5), (True, 3), (0, 1j), (0, 10 ** 9)]
+                   (None, 1), (0.0, 1.0), (1.0, 0.0), (0.5000000001, 3), (2, 1.5), (True, 3), (0, 1j), (0, 10 ** 9), (1j, 0.3),
+                   (1j, 2), ('1', 0.3), (0.3, None)]
     for cls in SPEC:
         cp = ctor_params(cls)
         for p in cp:
